@@ -2387,7 +2387,7 @@ impl Lexer<'_> {
         ));
 
         // Helper function to emit the token and update the mode if needed
-        let emit_token_update_nesting = |lexer: &mut Lexer, local_parens_nesting: i32| {
+        let emit_token_update_nesting = |lexer: &mut Lexer, local_parens_nesting: i64| {
             lexer.emit_token(TokenChannel::DEFAULT, TokenType::MacroString, Payload::None);
 
             // If the local parens nesting has been affected, update the mode
@@ -2397,13 +2397,16 @@ impl Lexer<'_> {
                 // as at the moment of reaching 0, we should have popped the mode
                 // and exited the lexing of the string
                 debug_assert!(
-                    i64::from(parens_nesting_level) + i64::from(local_parens_nesting) >= 0
+                    i64::from(parens_nesting_level) + local_parens_nesting >= 0
                 );
 
                 if let Some(m) = lexer.mode_stack.last_mut() {
                     match m {
                         LexerMode::MacroCallValue { pnl, .. } => {
-                            *pnl = pnl.wrapping_add_signed(local_parens_nesting);
+                            // The sum is the number of open parens, which is bounded
+                            // by the source length, so it always fits
+                            *pnl = u32::try_from(i64::from(*pnl) + local_parens_nesting)
+                                .unwrap_or(u32::MAX);
                         }
                         _ => unreachable!(),
                     }
@@ -2415,7 +2418,9 @@ impl Lexer<'_> {
         // and eventually combine with the nesting that has been passed
         // via mode. This would trigger a possible mode update if
         // nesting level has been affected.
-        let mut local_parens_nesting = 0i32;
+        // (wider than the nesting level itself: a single section may open more than
+        // `i32::MAX` parens in a source that is still below the 4 GiB limit)
+        let mut local_parens_nesting = 0i64;
 
         while let Some(c) = self.cursor.peek() {
             match c {
@@ -2464,19 +2469,19 @@ impl Lexer<'_> {
                     local_parens_nesting += 1;
                     self.cursor.advance();
                 }
-                ')' if parens_nesting_level.wrapping_add_signed(local_parens_nesting) != 0 => {
+                ')' if i64::from(parens_nesting_level) + local_parens_nesting != 0 => {
                     // Decrease the local parens nesting level
                     local_parens_nesting -= 1;
                     self.cursor.advance();
                 }
-                ')' if parens_nesting_level.wrapping_add_signed(local_parens_nesting) == 0 => {
+                ')' if i64::from(parens_nesting_level) + local_parens_nesting == 0 => {
                     // Found the terminator of the entire macro call arguments,
                     // emit the token, pop the mode and return
                     self.emit_token(TokenChannel::DEFAULT, TokenType::MacroString, Payload::None);
                     self.pop_mode();
                     return;
                 }
-                ',' if parens_nesting_level.wrapping_add_signed(local_parens_nesting) == 0
+                ',' if i64::from(parens_nesting_level) + local_parens_nesting == 0
                     && flags.terminate_on_comma() =>
                 {
                     // Found the terminator, pop the mode and push new modes
@@ -2728,7 +2733,7 @@ impl Lexer<'_> {
 
         // Helper function to emit the token and update the mode if needed
         let emit_token_update_nesting =
-            |lexer: &mut Lexer, local_parens_nesting: i32, payload: Payload| {
+            |lexer: &mut Lexer, local_parens_nesting: i64, payload: Payload| {
                 lexer.emit_token(TokenChannel::DEFAULT, TokenType::MacroString, payload);
 
                 // If the local parens nesting has been affected, update the mode
@@ -2738,7 +2743,7 @@ impl Lexer<'_> {
                     // as at the moment of reaching 0, we should have popped the mode
                     // and exited the lexing of the string
                     debug_assert!(
-                        i64::from(parens_nesting_level) + i64::from(local_parens_nesting) >= 0
+                        i64::from(parens_nesting_level) + local_parens_nesting >= 0
                     );
 
                     if let Some(m) = lexer.mode_stack.last_mut() {
@@ -2747,8 +2752,12 @@ impl Lexer<'_> {
                                 pnl: parens_nesting_level,
                                 ..
                             } => {
-                                *parens_nesting_level =
-                                    parens_nesting_level.wrapping_add_signed(local_parens_nesting);
+                                // The sum is the number of open parens, which is bounded
+                                // by the source length, so it always fits
+                                *parens_nesting_level = u32::try_from(
+                                    i64::from(*parens_nesting_level) + local_parens_nesting,
+                                )
+                                .unwrap_or(u32::MAX);
                             }
                             _ => unreachable!(),
                         }
@@ -2760,7 +2769,9 @@ impl Lexer<'_> {
         // and eventually combine with the nesting that has been passed
         // via mode. This would trigger a possible mode update if
         // nesting level has been affected.
-        let mut local_parens_nesting = 0i32;
+        // (wider than the nesting level itself: a single section may open more than
+        // `i32::MAX` parens in a source that is still below the 4 GiB limit)
+        let mut local_parens_nesting = 0i64;
 
         // See `lex_single_quoted_str` for in-depth comments on the logic
         // of lexing possibly escaped text in a string expression
@@ -2876,12 +2887,12 @@ impl Lexer<'_> {
                     local_parens_nesting += 1;
                     self.cursor.advance();
                 }
-                ')' if parens_nesting_level.wrapping_add_signed(local_parens_nesting) != 0 => {
+                ')' if i64::from(parens_nesting_level) + local_parens_nesting != 0 => {
                     // Decrease the local parens nesting level
                     local_parens_nesting -= 1;
                     self.cursor.advance();
                 }
-                ')' if parens_nesting_level.wrapping_add_signed(local_parens_nesting) == 0 => {
+                ')' if i64::from(parens_nesting_level) + local_parens_nesting == 0 => {
                     // Found the terminator, emit the token, pop the mode and return
                     let payload = self.resolve_string_literal_payload(
                         lit_start_idx,
